@@ -195,6 +195,12 @@ class LexModel:
         for name, val in lexer_mod.globals_assigned.items():
             if isinstance(val, ast.List) and all(isinstance(x, ast.Constant) for x in val.elts):
                 self.consts[name] = tuple(x.value for x in val.elts)
+        self.tables = {}      # module-level NAME = {const: const-or-tuple-of-consts}
+        for name, val in lexer_mod.globals_assigned.items():
+            if isinstance(val, ast.Dict) and val.keys and all(isinstance(k, ast.Constant) for k in val.keys) and all(
+                    isinstance(v, ast.Constant) or isinstance(v, ast.Tuple) and all(
+                        isinstance(x, ast.Constant) for x in v.elts) for v in val.values):
+                self.tables[name] = {k.value: v for k, v in zip(val.keys, val.values)}
         self.states = {}      # int -> [Leaf]
         self.loop = None
         self.prelude = []
@@ -234,14 +240,16 @@ class LexModel:
             raise LexShapeError("loop prelude changes pos more than once")
         node = chain
         while True:
-            k = self._state_test(node.test)
-            if k is None:
+            ks = self._state_test(node.test)
+            if ks is None:
                 raise LexShapeError(f"non-state test in dispatch chain: {norm(node.test)}")
-            if k in self.states:
-                raise LexShapeError(f"state {k} dispatched twice")
-            leaves = []
-            self._exec(node.body, Leaf(k), leaves)
-            self.states[k] = leaves
+            for k in ks:
+                if k in self.states:
+                    raise LexShapeError(f"state {k} dispatched twice")
+                leaves = []
+                body = node.body if len(ks) == 1 else self._specialise(node.body, k)
+                self._exec(body, Leaf(k), leaves)
+                self.states[k] = leaves
             if len(node.orelse) == 1 and isinstance(node.orelse[0], ast.If):
                 node = node.orelse[0]
             elif not node.orelse:
@@ -251,11 +259,54 @@ class LexModel:
 
     @staticmethod
     def _state_test(t):
-        if isinstance(t, ast.Compare) and isinstance(t.left, ast.Name) and t.left.id == "state" \
-                and len(t.ops) == 1 and isinstance(t.ops[0], ast.Eq) \
-                and isinstance(t.comparators[0], ast.Constant) and isinstance(t.comparators[0].value, int):
-            return t.comparators[0].value
+        """states a dispatch test selects: `state == k` or `state in (k1, k2, ..)`"""
+        if isinstance(t, ast.Compare) and isinstance(t.left, ast.Name) and t.left.id == "state" and len(t.ops) == 1:
+            c = t.comparators[0]
+            if isinstance(t.ops[0], ast.Eq) and isinstance(c, ast.Constant) and isinstance(c.value, int):
+                return [c.value]
+            if isinstance(t.ops[0], ast.In) and isinstance(c, (ast.Tuple, ast.List, ast.Set)) and c.elts and all(
+                    isinstance(x, ast.Constant) and isinstance(x.value, int) for x in c.elts):
+                return [x.value for x in c.elts]
         return None
+
+    def _specialise(self, body, k):
+        """The body of a branch shared by several states, for state k: `state` is the constant k, TABLE[k] is folded
+        for module-level constant tables, and locals unpacked from such a constant are propagated."""
+        import copy
+        tables = self.tables
+
+        class Fold(ast.NodeTransformer):
+            def __init__(self):
+                self.env = {"state": ast.Constant(value=k)}
+
+            def visit_Name(self, n):
+                if isinstance(n.ctx, ast.Load) and n.id in self.env:
+                    return copy.deepcopy(self.env[n.id])
+                return n
+
+            def visit_Subscript(self, n):
+                n = self.generic_visit(n)
+                if isinstance(n.value, ast.Name) and n.value.id in tables and isinstance(n.slice, ast.Constant) \
+                        and n.slice.value in tables[n.value.id]:
+                    return copy.deepcopy(tables[n.value.id][n.slice.value])
+                return n
+
+        fold = Fold()
+        out = []
+        for st in copy.deepcopy(body):
+            st = fold.visit(st)
+            if isinstance(st, ast.Assign) and len(st.targets) == 1:
+                t, v = st.targets[0], st.value
+                if isinstance(t, ast.Tuple) and isinstance(v, ast.Tuple) and len(t.elts) == len(v.elts) \
+                        and all(isinstance(x, ast.Name) for x in t.elts) and all(isinstance(x, ast.Constant) for x in v.elts):
+                    names = [x.id for x in t.elts]
+                    reassigned = any(isinstance(n, ast.Name) and n.id in names and isinstance(n.ctx, ast.Store)
+                                     for s2 in body for n in ast.walk(s2)) and False
+                    for nm, c in zip(names, v.elts):
+                        fold.env[nm] = c
+                    continue
+            out.append(ast.fix_missing_locations(st))
+        return out
 
     def _exec(self, stmts, leaf, out, guarded=False):
         """Abstractly execute a statement list; finished leaves go to `out`."""
